@@ -111,6 +111,9 @@ TStop ==
          [] Ev.k = 6 -> S6
          [] OTHER -> FALSE
     /\ KeepT /\ Adv
+\* the listeners are closed by closeEventLoops, between errgroup.Wait and the flag (and nowhere else while the engine lives)
+\* (an engine whose OnBoot asked for the shutdown never starts anything: Run closes the listeners itself)
+TLnClose == Is("LnClose") /\ ~ClientMode /\ stop \in {"closeloops", "unborn"} /\ UNCHANGED vars /\ KeepT /\ Adv
 TOnShutdown == Is("OnShutdown") /\ S2 /\ KeepT /\ Adv
 TTriggered == Is("Triggered") /\ stop = "trigger" /\ trig > Ev.idx + 1 /\ UNCHANGED vars /\ KeepT /\ Adv
 TTickShutdown == Is("TickShutdown") /\ TickShutdown /\ KeepT /\ Adv
@@ -131,7 +134,7 @@ STickerExit == TickerExit /\ Stay /\ KeepT
 SStopCall == stopReq /\ StopCall /\ Stay /\ KeepT
 
 TNext == \/ TAccept \/ TRegistered \/ TOpenEnd \/ TTrafficShutdown \/ TClose \/ TPollingReturned \/ TLoopClosed
-         \/ TStopReq \/ TStop \/ TOnShutdown \/ TTriggered \/ TTickShutdown \/ TRunRet
+         \/ TStopReq \/ TStop \/ TLnClose \/ TOnShutdown \/ TTriggered \/ TTickShutdown \/ TRunRet
          \/ SConnect \/ SEnqueue \/ SS3 \/ STickerExit \/ SStopCall
          \/ TDup \/ TRegisteredC \/ TOpenEndC \/ SRegEnqueue \/ SStopSteps
 
